@@ -129,8 +129,9 @@ def tb_site(exc):
 class CountingSource:
     """Iterator that numbers every element, counts pulls, optionally endless."""
 
-    def __init__(self, items=None, hard_cap=100000, start=0, step=1, name='src'):
+    def __init__(self, items=None, hard_cap=100000, start=0, step=1, name='src', elem=None):
         self.items = items  # None => endless start, start+step, ...
+        self.elem = elem    # endless sources: element number k is elem(k) instead of the number itself
         self.pulls = 0
         self.hard_cap = hard_cap
         self.start = start
@@ -152,7 +153,8 @@ class CountingSource:
         if self.pulls == self.trip:
             self.trip_site = yaql_site(2)
         if self.items is None:
-            return self.start + (self.pulls - 1) * self.step
+            k = self.start + (self.pulls - 1) * self.step
+            return k if self.elem is None else self.elem(k)
         if self.pulls > len(self.items):
             self.exhausted = True
             raise StopIteration
